@@ -18,8 +18,9 @@ RULE = (
     "assignments, created with an explicit Config. Parameter half: for EVERY Config field x every value of its domain "
     "(cse {T,F}; python_modules {default, ('numpy','math')}; extra_validation {F,T}; max_dt_sec {0.1,0.05,1.0}; "
     "innovation_filtering {None,5.0,0.5}) set_params(field=v) must change exactly that field; every pair of fields set "
-    "together; set_params(**get_params()) and sklearn.base.clone preserve every parameter; unknown names (3 spellings) "
-    "are refused and change nothing (unknown = misspellings of every real parameter and every other attribute name the estimator "
+    "together; set_params(**get_params()) and sklearn.base.clone preserve every parameter; unknown names (9 spellings) "
+    "are refused and change nothing (unknown = misspellings of every real parameter - trailing/leading underscore or blank, upper case, truncated, "
+    "and the real name behind or in front of a double-underscore component as in bogus__<name>, <name>__bogus - and every other attribute name the estimator "
     "object has, before and after its first use; the instance dictionary must be untouched). Fit half: every (estimator, training matrix) pair of the tier's menu (matrices of 4-6 "
     "rows over the C16 alphabet; quick 12 pairs, thorough 48) is fitted; outcome must be MinimizationFailure or an "
     "estimator with the identical model, sensor models, calibration and config whose noise maps name exactly the original "
@@ -178,7 +179,9 @@ def eval_params(case):
                     fail("transform-raises", f"transform raised {e!r}"[:200])
             attr_names = sorted(a for a in set(dir(est)) | set(vars(est)) if not a.startswith("__") and a not in known)
             spellings = ["innovation_filter", "Config", "max_dt", "process_noises"] + [k_ + "_" for k_ in sorted(known)] + \
-                [k_.upper() for k_ in sorted(known)] + [k_[:-1] for k_ in sorted(known)]
+                [k_.upper() for k_ in sorted(known)] + [k_[:-1] for k_ in sorted(known)] + \
+                [pre + k_ for k_ in sorted(known) for pre in ("bogus__", "no__such__", "_", " ")] + \
+                [k_ + suf for k_ in sorted(known) for suf in ("__bogus", " ")]
             for bad in spellings + attr_names:
                 if bad in known:
                     continue
